@@ -5,7 +5,8 @@
   What is *modelled* here (not translated): the `SpikeTrain` constructor (`SpikeTrain.py:12-31`: the spike
   times become a float array, sorted with `np.sort` unless `is_sorted`; edges given as a pair), and the numpy /
   builtin functions by their documented meaning: `np.sort` (ascending), `np.unique` (sorted, each value once),
-  `np.concatenate` (ValueError on an empty list), `min` / `max` of a list (ValueError on an empty list).
+  `np.concatenate` (ValueError on an empty list), `min` / `max` of a list (ValueError on an empty list),
+  `np.insert` at a constant position.
   The correspondence check runs the constructor and these calls in the real code on every run.
   No Mathlib import.
 -/
@@ -48,5 +49,9 @@ def pyMax : List Rat → Option Rat
 /-- `np.concatenate(ls)` (ValueError: need at least one array to concatenate) -/
 def npConcatenate (ls : List (List Rat)) : Option (List Rat) :=
   if ls.isEmpty then none else some ls.flatten
+
+/-- `np.insert(a, k, v)` for a position `0 ≤ k ≤ len(a)`: the values `v` go in before position `k` (IndexError beyond) -/
+def npInsert (a : List Rat) (k : Nat) (v : List Rat) : Option (List Rat) :=
+  if k ≤ a.length then some (a.take k ++ v ++ a.drop k) else none
 
 end PySpike.Gen
